@@ -163,6 +163,9 @@ pub fn run(ctx: &Ctx, rep: &mut Report) {
             let dummy = w.u.principal();
             let its_same = env.register(InterchainTokenService, (&w.owner, &dummy, &dummy, sstr(&env, b"h2"), sstr(&env, &chain), native_hash(&env)));
             let its_other = env.register(InterchainTokenService, (&w.owner, &dummy, &dummy, sstr(&env, b"hub-address"), sstr(&env, &other_chain), native_hash(&env)));
+            // a chain name that differs from the first one in letter case only
+            let case_chain: Vec<u8> = chain.iter().enumerate().map(|(i, b)| if i == 0 { b.to_ascii_uppercase() } else { *b }).collect();
+            let its_case = env.register(InterchainTokenService, (&w.owner, &dummy, &dummy, sstr(&env, b"hub-address"), sstr(&env, &case_chain), native_hash(&env)));
             w.u.skip_events();
             let mut seen: BTreeMap<[u8; 32], String> = BTreeMap::new();
             let deployers = [w.users[0].clone(), w.users[1].clone(), w.its.clone()];
@@ -180,7 +183,7 @@ pub fn run(ctx: &Ctx, rep: &mut Report) {
                 true
             };
             let mut ok = true;
-            for (ci, (its_addr, cname)) in [(w.its.clone(), chain.clone()), (its_same.clone(), chain.clone()), (its_other.clone(), other_chain.clone())].iter().enumerate() {
+            for (ci, (its_addr, cname)) in [(w.its.clone(), chain.clone()), (its_same.clone(), chain.clone()), (its_other.clone(), other_chain.clone()), (its_case.clone(), case_chain.clone())].iter().enumerate() {
                 let c = InterchainTokenServiceClient::new(&env, its_addr);
                 for (di, d) in deployers.iter().enumerate() {
                     for (si, s) in salts.iter().enumerate() {
@@ -678,7 +681,7 @@ pub fn run(ctx: &Ctx, rep: &mut Report) {
     rep.notes.insert("n_recipe_agrees_with_documented_derivation".into(), json!(recipe_agree));
     rep.notes.insert("n_recipe_differs_from_documented_derivation".into(), json!(recipe_differ));
     rep.notes.insert("token_mode".into(), json!("native (service constructed with the native marker hash; deployed tokens run the tree's interchain-token code)"));
-    rep.notes.insert("rule".into(), json!("per universe: a determinism twin (the same world rebuilt from the same random stream at another ledger sequence and timestamp must give the same id and the same token address for the same deployer and salt); id algebra over three service instances (same chain name twice, another chain name) x 3 deployers x 3 salts x 2 canonical tokens: determinism, equality across instances with equal chain name, no collision between different inputs or kinds (the exact documented recipe is recorded as a note, not a verdict); then 15+ operations: local deployments over all 12 (supply in {-5,0,1000}) x (minter in {none, third party, deployer, service}) configurations, colliding redeployments (same deployer+salt with same/other metadata), same salt from another deployer, canonical registration (asset contract / interchain token) once and again, remote deploy messages for fresh ids and for ids taken locally / canonically / remotely, local deployment of an id taken remotely; after every operation every registered id is re-read (address and manager type never change); every deployed token is read back (token_id, metadata, owner, deployer balance, minter flags) and receives an approved inbound transfer of 1 unit at a checkpoint. distinct = (op, configuration, id taken, outcome)"));
+    rep.notes.insert("rule".into(), json!("per universe: a determinism twin (the same world rebuilt from the same random stream at another ledger sequence and timestamp must give the same id and the same token address for the same deployer and salt); id algebra over four service instances (same chain name, a longer one, one differing in letter case only) (same chain name twice, another chain name) x 3 deployers x 3 salts x 2 canonical tokens: determinism, equality across instances with equal chain name, no collision between different inputs or kinds (the exact documented recipe is recorded as a note, not a verdict); then 15+ operations: local deployments over all 12 (supply in {-5,0,1000}) x (minter in {none, third party, deployer, service}) configurations, colliding redeployments (same deployer+salt with same/other metadata), same salt from another deployer, canonical registration (asset contract / interchain token) once and again, remote deploy messages for fresh ids and for ids taken locally / canonically / remotely, local deployment of an id taken remotely; after every operation every registered id is re-read (address and manager type never change); every deployed token is read back (token_id, metadata, owner, deployer balance, minter flags) and receives an approved inbound transfer of 1 unit at a checkpoint. distinct = (op, configuration, id taken, outcome)"));
 }
 
 fn its_deploy_salt_id(chain: &[u8], deployer: &soroban_sdk::xdr::ScAddress, salt: &[u8; 32]) -> [u8; 32] {
